@@ -106,6 +106,13 @@ for _caller in ("write_snapshot", "_write_lines"):
     R.fclause("C20", "no-escape/sidecar-call-in-" + _caller, "noescape", "clematis/engine/snapshot.py:" + _caller,
               sites={"call": "_write_sidecar_meta"})
 
+# store apply errors and cache invalidation errors: the full statement (what is retried, the version bump, no exception for a
+# raising store) is the C04 contract of apply_changes (Engine V, ~5 min); the C20 check carries the cheap structural half
+# itself: every store call and every cache-manager call of apply_changes sits inside a catch-all handler
+APC = "clematis/engine/apply.py:apply_changes"
+for nm, pat in [("store-apply", {"call": "apply_fn"}), ("cache-invalidation", {"call": "invalidate_namespace", "recv": "cm"})]:
+    R.fclause("C20", "no-escape/apply_changes:%s" % nm, "noescape", APC, sites=pat)
+
 # ---------------------------------------------------------------- C19: triple gate, wall budget and fail-soft of the compute step
 RF = "clematis/engine/orchestrator/core.py:_run_reflection_if_enabled"
 R.fclause("C19", "reflection/compute-gate", "gate", RF, sites={"call": "reflect_fn"},
